@@ -163,6 +163,7 @@ long vp_ghost_live_fibers(void);
 int vp_preempt_now(pthread_t t);
 void vp_ghost_check_starved(void);
 int vp_ghost_others_idle(void);
+const void* vp_ghost_finished_but_running(uint64_t* sw_out);
 void vp_ghost_check_overdue_sleepers(void);
 const void* vp_ghost_ready_on_my_sched(uint64_t* mark_out);
 long vp_ghost_bypass_bound(void);
